@@ -1,15 +1,20 @@
 """C13 Lookups return exactly the matching rows in documented order."""
 from mc.histprop import HistProp
 from mc import worlds as W
-from mc.monitors2 import Lookups
+from mc.monitors2 import Lookups, Lookups2
 
 LEVEL = 'model_checking'
-NAMES = ['W_look']
-D = W.depths_for(NAMES, quick=2, thorough=3)
-P = HistProp('C13', lambda t: W.make(NAMES), lambda w, t: [Lookups()], D,
+NAMES = ['W_look', 'W_look2']
+D = W.depths_for(NAMES, quick=2, thorough=3, overrides={'quick': {'W_look2': 3}, 'thorough': {'W_look2': 4}})
+P = HistProp('C13', lambda t: W.make(NAMES), lambda w, t: [Lookups2()] if w.name == 'W_look2' else [Lookups()], D,
+             origins={'quick': ('L', 'I'), 'thorough': ('L', 'I')},
              rule='all histories over W_look; 18 lookup specs (Text key, two keys, Ref key, '
                   'CONTAINS with/without match_empty, order_by default/None/asc/desc/tuple/id, '
                   'sort_by) x lookupRecords and lookupOne as formula columns of Q; after every '
                   'bundle every result is compared with a naive filter of fetch_table(L) + stable '
-                  'sort by the documented key (order_by cols, manualSort unless id given, row id)')
+                  'sort by the documented key (order_by cols, manualSort unless id given, row id); plus all '
+                  'histories over W_look2 (the life cycle of lookups: one referring row, sort column '
+                  'removed and restored, order_by switched and switched back, a column that appears '
+                  'later, a ChoiceList key column turned into Text, undo as a step) against a '
+                  'reference computed from the dump')
 run, replay = P.run, P.replay
